@@ -192,7 +192,10 @@ class VGen:
         if k == "int":
             w = t[1]
             hi = 2 ** (2 ** w) - 1
-            return ["int", w, r.choice([0, hi, r.randint(0, hi)])]
+            lo = -(2 ** (2 ** w - 1))
+            # an integer constant is "either signed or unsigned" (hugr-core ConstInt): negative values down to
+            # -2^(N-1) are constants of the width too, stored as their two's complement
+            return ["int", w, r.choice([0, hi, r.randint(0, hi), r.randint(0, hi), -1, lo, r.randint(lo, -1)])]
         if k == "float":
             return ["float", r.choice([0.0, -0.0, 1.5, -2.25, 1e300, 5e-324, 3.0])]
         if k == "string":
